@@ -114,7 +114,10 @@ void* ta_malloc(size_t n) {
   ta_log('m', NULL, p, n, 0);
   return p;
 }
+uint64_t ta_realloc_idx[TA_MAX_REALLOC_IDX];
+size_t ta_nrealloc_idx;
 void* ta_realloc(void* old, size_t n) {
+  if (ta_nrealloc_idx < TA_MAX_REALLOC_IDX) ta_realloc_idx[ta_nrealloc_idx++] = TA.requests; /* the index this request is about to get */
   TA.reallocs++;
   if (old == NULL) TA.realloc_null++;
   struct ta_ent* e = NULL;
@@ -165,7 +168,7 @@ void ta_forget_all(void) {
   for (size_t i = 0; i < ta_cap; i++) if (ta_tab[i].p > TA_TOMB) ta_remove(&ta_tab[i]);
 }
 void ta_install(void) { cbor_set_allocs(ta_malloc, ta_realloc, ta_free); }
-void ta_reset_stats(void) { memset(&TA, 0, sizeof TA); }
+void ta_reset_stats(void) { memset(&TA, 0, sizeof TA); ta_nrealloc_idx = 0; }
 size_t ta_live_count(void) { return ta_live; }
 uint64_t ta_live_sig(void) { return ta_sig ^ (ta_live * 0x9e3779b97f4a7c15ull); }
 void ta_set_cap(size_t cap) { ta_cap_limit = cap; }
